@@ -760,3 +760,436 @@ pub fn run_ext(seed: u64, n: usize, out: &mut dyn Write) -> (usize, usize) {
     writeln!(out, "{}", json!({"e":"end","panic":panics > 0,"panics":panics})).unwrap();
     (events + 1, panics)
 }
+
+// ---------------------------------------------------------------------------------------------
+// C04: nothing that arrives can crash the receive path; every accessor is total over buffers of at
+// least the minimum header size
+// ---------------------------------------------------------------------------------------------
+use std::cell::RefCell;
+thread_local! {
+    pub static LAST_PANIC: RefCell<String> = const { RefCell::new(String::new()) };
+}
+
+pub fn install_panic_recorder() {
+    std::panic::set_hook(Box::new(|info| {
+        let loc = info.location().map_or_else(|| "?".to_string(), |l| {
+            let f = l.file();
+            let f = f.rsplit("crates/").next().unwrap_or(f);
+            format!("{}:{}", f, l.line())
+        });
+        LAST_PANIC.with(|p| *p.borrow_mut() = loc);
+    }));
+}
+
+/// Call every public accessor (and Debug) of the view of type `ty` over `buf`.
+#[allow(clippy::too_many_lines)]
+fn touch_all(ty: &str, buf: &[u8]) {
+    use std::fmt::Write as _;
+    let mut s = String::new();
+    match ty {
+        "ipv4" => {
+            if let Ok(p) = Ipv4Packet::new_view(buf) {
+                let _ = (p.get_version(), p.get_header_length(), p.get_dscp(), p.get_ecn(), p.get_tos(), p.get_total_length(),
+                    p.get_identification(), p.get_flags_and_fragment_offset(), p.get_ttl(), p.get_protocol(), p.get_checksum(),
+                    p.get_source(), p.get_destination());
+                let _ = p.get_options_raw().len() + p.payload().len() + p.packet().len();
+                let _ = write!(s, "{p:?}");
+            }
+        }
+        "ipv6" => {
+            if let Ok(p) = Ipv6Packet::new_view(buf) {
+                let _ = (p.get_version(), p.get_traffic_class(), p.get_flow_label(), p.get_payload_length(), p.get_next_header(),
+                    p.get_hop_limit(), p.get_source_address(), p.get_destination_address());
+                let _ = p.payload().len() + p.packet().len();
+                let _ = write!(s, "{p:?}");
+            }
+        }
+        "udp" => {
+            if let Ok(p) = UdpPacket::new_view(buf) {
+                let _ = (p.get_source(), p.get_destination(), p.get_length(), p.get_checksum(), p.payload().len(), p.packet().len());
+                let _ = write!(s, "{p:?}");
+            }
+        }
+        "tcp" => {
+            if let Ok(p) = TcpPacket::new_view(buf) {
+                let _ = (p.get_source(), p.get_destination(), p.get_sequence(), p.get_acknowledgement(), p.get_data_offset(),
+                    p.get_reserved(), p.get_flags(), p.get_window_size(), p.get_checksum(), p.get_urgent_pointer());
+                let _ = p.get_options_raw().len() + p.payload().len() + p.packet().len();
+                let _ = write!(s, "{p:?}");
+            }
+        }
+        "icmp4" => {
+            if let Ok(p) = icmpv4::IcmpPacket::new_view(buf) {
+                let _ = (p.get_icmp_type(), p.get_icmp_code(), p.get_checksum(), p.packet().len());
+                let _ = write!(s, "{p:?}");
+            }
+        }
+        "icmp4_echo_request" => {
+            if let Ok(p) = icmpv4::echo_request::EchoRequestPacket::new_view(buf) {
+                let _ = (p.get_icmp_type(), p.get_icmp_code(), p.get_checksum(), p.get_identifier(), p.get_sequence(), p.payload().len());
+                let _ = write!(s, "{p:?}");
+            }
+        }
+        "icmp4_echo_reply" => {
+            if let Ok(p) = icmpv4::echo_reply::EchoReplyPacket::new_view(buf) {
+                let _ = (p.get_icmp_type(), p.get_icmp_code(), p.get_checksum(), p.get_identifier(), p.get_sequence(), p.payload().len());
+                let _ = write!(s, "{p:?}");
+            }
+        }
+        "icmp4_time_exceeded" => {
+            if let Ok(p) = icmpv4::time_exceeded::TimeExceededPacket::new_view(buf) {
+                let _ = (p.get_icmp_type(), p.get_icmp_code(), p.get_checksum(), p.get_length(), p.payload().len(), p.payload_raw().len(),
+                    p.extension().map(<[u8]>::len));
+                let _ = write!(s, "{p:?}");
+            }
+        }
+        "icmp4_dest_unreachable" => {
+            if let Ok(p) = icmpv4::destination_unreachable::DestinationUnreachablePacket::new_view(buf) {
+                let _ = (p.get_icmp_type(), p.get_icmp_code(), p.get_checksum(), p.get_length(), p.get_next_hop_mtu(), p.payload().len(),
+                    p.payload_raw().len(), p.extension().map(<[u8]>::len));
+                let _ = write!(s, "{p:?}");
+            }
+        }
+        "icmp6" => {
+            if let Ok(p) = icmpv6::IcmpPacket::new_view(buf) {
+                let _ = (p.get_icmp_type(), p.get_icmp_code(), p.get_checksum(), p.packet().len());
+                let _ = write!(s, "{p:?}");
+            }
+        }
+        "icmp6_echo_request" => {
+            if let Ok(p) = icmpv6::echo_request::EchoRequestPacket::new_view(buf) {
+                let _ = (p.get_icmp_type(), p.get_icmp_code(), p.get_checksum(), p.get_identifier(), p.get_sequence(), p.payload().len());
+                let _ = write!(s, "{p:?}");
+            }
+        }
+        "icmp6_echo_reply" => {
+            if let Ok(p) = icmpv6::echo_reply::EchoReplyPacket::new_view(buf) {
+                let _ = (p.get_icmp_type(), p.get_icmp_code(), p.get_checksum(), p.get_identifier(), p.get_sequence(), p.payload().len());
+                let _ = write!(s, "{p:?}");
+            }
+        }
+        "icmp6_time_exceeded" => {
+            if let Ok(p) = icmpv6::time_exceeded::TimeExceededPacket::new_view(buf) {
+                let _ = (p.get_icmp_type(), p.get_icmp_code(), p.get_checksum(), p.get_length(), p.payload().len(), p.payload_raw().len(),
+                    p.extension().map(<[u8]>::len));
+                let _ = write!(s, "{p:?}");
+            }
+        }
+        "icmp6_dest_unreachable" => {
+            if let Ok(p) = icmpv6::destination_unreachable::DestinationUnreachablePacket::new_view(buf) {
+                let _ = (p.get_icmp_type(), p.get_icmp_code(), p.get_checksum(), p.get_length(), p.get_next_hop_mtu(), p.payload().len(),
+                    p.payload_raw().len(), p.extension().map(<[u8]>::len));
+                let _ = write!(s, "{p:?}");
+            }
+        }
+        "ext_header" => {
+            if let Ok(p) = ExtensionHeaderPacket::new_view(buf) {
+                let _ = (p.get_version(), p.get_checksum(), p.packet().len());
+                let _ = write!(s, "{p:?}");
+            }
+        }
+        "ext_object" => {
+            if let Ok(p) = ExtensionObjectPacket::new_view(buf) {
+                let _ = (p.get_length(), p.get_class_num(), p.get_class_subtype(), p.packet().len());
+                let _ = p.payload().len();
+                let _ = write!(s, "{p:?}");
+            }
+        }
+        "mpls_member" => {
+            if let Ok(p) = MplsLabelStackMemberPacket::new_view(buf) {
+                let _ = (p.get_label(), p.get_exp(), p.get_bos(), p.get_ttl(), p.packet().len());
+                let _ = write!(s, "{p:?}");
+            }
+        }
+        "ext_structure" => {
+            if let Ok(p) = ExtensionsPacket::new_view(buf) {
+                let _ = p.header().len() + p.packet().len();
+                let mut n = 0;
+                for o in p.objects() {
+                    n += 1;
+                    if n > 4096 {
+                        panic!("object iteration does not terminate");
+                    }
+                    touch_all("ext_object", o);
+                }
+            }
+        }
+        "mpls_stack" => {
+            if let Ok(p) = MplsLabelStackPacket::new_view(buf) {
+                let mut n = 0;
+                for m in p.members() {
+                    n += 1;
+                    if n > 4096 {
+                        panic!("member iteration does not terminate");
+                    }
+                    touch_all("mpls_member", m);
+                }
+                let _ = p.packet().len();
+            }
+        }
+        _ => {}
+    }
+}
+
+pub const VIEW_TYPES: &[(&str, usize)] = &[("ipv4", 20), ("ipv6", 40), ("udp", 8), ("tcp", 20), ("icmp4", 8), ("icmp4_echo_request", 8),
+    ("icmp4_echo_reply", 8), ("icmp4_time_exceeded", 8), ("icmp4_dest_unreachable", 8), ("icmp6", 8), ("icmp6_echo_request", 8),
+    ("icmp6_echo_reply", 8), ("icmp6_time_exceeded", 8), ("icmp6_dest_unreachable", 8), ("ext_header", 4), ("ext_object", 4),
+    ("mpls_member", 4), ("ext_structure", 4), ("mpls_stack", 4)];
+
+fn hex(b: &[u8]) -> String {
+    b.iter().take(96).map(|x| format!("{x:02x}")).collect()
+}
+
+/// Accessors of every view over arbitrary buffers of at least the minimum size: for each type, every
+/// value of each of the first octets (where all length / offset fields live) against every buffer length
+/// in a window above the minimum, plus random contents.
+pub fn run_views(seed: u64, reps: usize, out: &mut dyn Write) -> (usize, usize) {
+    let mut rng = StdRng::seed_from_u64(seed ^ 0xc04);
+    let mut events = 0;
+    let mut total_panics = 0;
+    for (ty, min) in VIEW_TYPES {
+        let mut n = 0u64;
+        let mut panics = 0u64;
+        let mut sites: std::collections::BTreeMap<String, (u64, String, usize)> = std::collections::BTreeMap::new();
+        let mut try_one = |buf: &[u8]| {
+            n += 1;
+            let r = std::panic::catch_unwind(|| touch_all(ty, buf));
+            if r.is_err() {
+                panics += 1;
+                let site = LAST_PANIC.with(|p| p.borrow().clone());
+                let e = sites.entry(site).or_insert((0, hex(buf), buf.len()));
+                e.0 += 1;
+            }
+        };
+        let hdr = (*min).min(16);
+        for len in *min..(*min + 70) {
+            for pos in 0..hdr {
+                for v in 0..=255u8 {
+                    let mut buf = vec![0x11u8; len];
+                    buf[pos] = v;
+                    try_one(&buf);
+                }
+            }
+        }
+        for _ in 0..reps {
+            let len = rng.random_range(*min..=1100);
+            let mut buf = vec![0u8; len];
+            rng.fill(&mut buf[..]);
+            try_one(&buf);
+        }
+        total_panics += panics;
+        let sites_json: Vec<Value> = sites.iter().map(|(s, (c, h, l))| json!({"site":s,"count":c,"len":l,"hex":h})).collect();
+        writeln!(out, "{}", json!({"e":"fz","target":"view","ty":ty,"n":n,"panics":panics,"sites":sites_json})).unwrap();
+        events += 1;
+    }
+    (events, total_panics as usize)
+}
+
+/// The receive path of the real `Channel` in all protocol x family x extension-mode configurations fed
+/// with: every value of every octet of the structural prefix of a valid response against every truncation
+/// length (the exhaustive field x length sweep), random mutations of valid responses, and random bytes.
+pub fn run_recv(seed: u64, reps: usize, thorough: bool, out: &mut dyn Write) -> (usize, usize) {
+    use crate::scenario::Scenario;
+    use crate::sim::{self, SimSocket, World};
+    use trippy_core::verif::{Channel, ChannelConfig, Network};
+    use trippy_core::{IcmpExtensionParseMode, PacketSize, PayloadPattern, PrivilegeMode, Protocol, Sequence, TypeOfService};
+    let mut rng = StdRng::seed_from_u64(seed ^ 0x4ecf);
+    let mut events = 0;
+    let mut total_panics = 0usize;
+    for proto in ["icmp", "udp", "tcp"] {
+        for fam in [4u8, 6] {
+            for ext in [false, true] {
+                let sc = Scenario {
+                    fam,
+                    proto: proto.into(),
+                    strat: if proto == "udp" { "dublin".into() } else { "classic".into() },
+                    ports: if proto == "icmp" { "none".into() } else { "src".into() },
+                    sport: 5000,
+                    ext,
+                    ..Scenario::default()
+                };
+                sim::install(World::new(sc));
+                let src = sim::addr_of(sim::SRC_CODE, fam);
+                let tgt = sim::addr_of(sim::TARGET_CODE, fam);
+                let cfg = ChannelConfig {
+                    privilege_mode: PrivilegeMode::Privileged,
+                    protocol: match proto { "udp" => Protocol::Udp, "tcp" => Protocol::Tcp, _ => Protocol::Icmp },
+                    source_addr: src,
+                    target_addr: tgt,
+                    packet_size: PacketSize(84),
+                    payload_pattern: PayloadPattern(0),
+                    initial_sequence: Sequence(33434),
+                    tos: TypeOfService(0),
+                    icmp_extension_parse_mode: if ext { IcmpExtensionParseMode::Enabled } else { IcmpExtensionParseMode::Disabled },
+                    read_timeout: std::time::Duration::from_millis(1),
+                    ..ChannelConfig::default()
+                };
+                let mut ch = Channel::<SimSocket>::connect(&cfg).expect("connect");
+                // valid base responses: a Time Exceeded quoting a probe of this configuration, with and
+                // without an extension, and a response from the target
+                let bases = base_responses(fam, proto, src, tgt);
+                let mut n = 0u64;
+                let (mut some, mut none, mut errs, mut panics) = (0u64, 0u64, 0u64, 0u64);
+                let mut sites: std::collections::BTreeMap<String, (u64, String, usize)> = std::collections::BTreeMap::new();
+                let mut feed = |bytes: &[u8], ch: &mut Channel<SimSocket>| {
+                    n += 1;
+                    sim::with_world(|w| w.inject(bytes.to_vec(), sim::addr_of(777, fam)));
+                    let r = std::panic::catch_unwind(std::panic::AssertUnwindSafe(|| ch.recv_probe()));
+                    match r {
+                        Ok(Ok(Some(_))) => some += 1,
+                        Ok(Ok(None)) => none += 1,
+                        Ok(Err(_)) => errs += 1,
+                        Err(_) => {
+                            panics += 1;
+                            let site = LAST_PANIC.with(|p| p.borrow().clone());
+                            let e = sites.entry(site).or_insert((0, hex(bytes), bytes.len()));
+                            e.0 += 1;
+                        }
+                    }
+                    sim::with_world(|w| w.events.clear());
+                };
+                for base in &bases {
+                    // the structural prefix: outer IP header (IPv4), ICMP header, nested IP header, nested
+                    // transport header, and the extension header / first object header
+                    let prefix = base.len().min(if fam == 4 { 20 + 8 + 20 + 20 } else { 8 + 40 + 20 });
+                    let lens: Vec<usize> = if thorough {
+                        (0..=base.len() + 8).collect()
+                    } else {
+                        (0..=base.len() + 8).filter(|l| *l < 100 || l % 7 == 0 || *l + 12 > base.len()).collect()
+                    };
+                    let mut positions: Vec<usize> = (0..prefix).collect();
+                    if base.len() > 140 {
+                        positions.extend(base.len() - 24..base.len());
+                        positions.extend((if fam == 4 { 28 } else { 8 }) + 124..(if fam == 4 { 28 } else { 8 }) + 140);
+                    }
+                    for pos in positions {
+                        if pos >= base.len() {
+                            continue;
+                        }
+                        let vals: Vec<u8> = if thorough { (0..=255).collect() } else { vec![0, 1, 2, 3, 4, 5, 6, 8, 15, 16, 17, 31, 32, 33, 58, 63, 64, 65, 69, 96, 127, 128, 129, 200, 254, 255] };
+                        for v in vals {
+                            let mut b = base.clone();
+                            b[pos] = v;
+                            if thorough || pos < 12 {
+                                for l in &lens {
+                                    let mut t = b.clone();
+                                    t.resize(*l, 0);
+                                    feed(&t, &mut ch);
+                                }
+                            } else {
+                                feed(&b, &mut ch);
+                                let l = lens[rng.random_range(0..lens.len())];
+                                b.resize(l, 0);
+                                feed(&b, &mut ch);
+                            }
+                        }
+                    }
+                    for _ in 0..reps {
+                        let mut b = base.clone();
+                        for _ in 0..rng.random_range(1..6) {
+                            let k = rng.random_range(0..b.len());
+                            b[k] = rng.random();
+                        }
+                        if rng.random_bool(0.4) {
+                            b.truncate(rng.random_range(0..=b.len()));
+                        }
+                        if rng.random_bool(0.2) {
+                            let extra: Vec<u8> = (0..rng.random_range(1..400)).map(|_| rng.random()).collect();
+                            b.extend_from_slice(&extra);
+                        }
+                        b.truncate(1500);
+                        feed(&b, &mut ch);
+                    }
+                }
+                for _ in 0..reps {
+                    let len = rng.random_range(0..=1500);
+                    let mut b = vec![0u8; len];
+                    rng.fill(&mut b[..]);
+                    if fam == 4 && len > 0 && rng.random_bool(0.7) {
+                        b[0] = 0x40 | rng.random_range(0..16u8);
+                        if len > 9 {
+                            b[9] = 1;
+                        }
+                    }
+                    feed(&b, &mut ch);
+                }
+                total_panics += panics as usize;
+                let sites_json: Vec<Value> = sites.iter().map(|(s, (c, h, l))| json!({"site":s,"count":c,"len":l,"hex":h})).collect();
+                writeln!(out, "{}", json!({"e":"fz","target":"recv","ty":format!("{proto}/{fam}/{}", if ext {"ext"} else {"noext"}),
+                    "n":n,"some":some,"none":none,"errs":errs,"panics":panics,"sites":sites_json})).unwrap();
+                events += 1;
+                let _ = sim::take();
+            }
+        }
+    }
+    (events, total_panics)
+}
+
+fn base_responses(fam: u8, proto: &str, src: std::net::IpAddr, tgt: std::net::IpAddr) -> Vec<Vec<u8>> {
+    use std::net::IpAddr;
+    // a probe datagram of this configuration as it would appear on the wire
+    let probe: Vec<u8> = match (src, tgt) {
+        (IpAddr::V4(s), IpAddr::V4(t)) => {
+            let l4: Vec<u8> = match proto {
+                "udp" => w::udp_datagram_v4(s, t, 5000, 33434, &[0u8; 56]),
+                "tcp" => w::tcp_syn(src, tgt, 5000, 33434, 1),
+                _ => {
+                    let mut m = vec![8u8, 0, 0, 0, 0x04, 0xd2, 0x82, 0x9a];
+                    m.extend_from_slice(&[0u8; 56]);
+                    m
+                }
+            };
+            let p = match proto { "udp" => 17, "tcp" => 6, _ => 1 };
+            let mut d = w::ipv4_header(s, t, p, 1, 0, 33434, 0x4000, (20 + l4.len()) as u16).to_vec();
+            d.extend_from_slice(&l4);
+            d
+        }
+        (IpAddr::V6(s), IpAddr::V6(t)) => {
+            let l4: Vec<u8> = match proto {
+                "udp" => {
+                    let mut pl = b"trippy".to_vec();
+                    pl.extend_from_slice(&[0u8; 20]);
+                    w::udp_datagram_v6(s, t, 5000, 33434, &pl)
+                }
+                "tcp" => w::tcp_syn(src, tgt, 5000, 33434, 1),
+                _ => {
+                    let mut m = vec![128u8, 0, 0, 0, 0x04, 0xd2, 0x82, 0x9a];
+                    m.extend_from_slice(&[0u8; 36]);
+                    m
+                }
+            };
+            let p = match proto { "udp" => 17, "tcp" => 6, _ => 58 };
+            let mut d = w::ipv6_header(s, t, p, 1, 0, 0, l4.len() as u16).to_vec();
+            d.extend_from_slice(&l4);
+            d
+        }
+        _ => Vec::new(),
+    };
+    let ext = w::ext_structure(&[ExtObject::Mpls(vec![MplsMember { label: 1234, exp: 1, bos: 0, ttl: 9 }, MplsMember { label: 99, exp: 0, bos: 1, ttl: 1 }]),
+        ExtObject::Other { class: 2, ctype: 1, payload: vec![1, 2, 3, 4] }]);
+    let mut v = Vec::new();
+    match (src, tgt) {
+        (IpAddr::V4(s), IpAddr::V4(t)) => {
+            let hop = Ipv4Addr::new(10, 1, 1, 1);
+            for (typ, code, form, e) in [(11u8, 0u8, ExtForm::None, &[][..]), (11, 0, ExtForm::Compliant, &ext[..]), (11, 0, ExtForm::Legacy, &ext[..]), (3, 3, ExtForm::Compliant, &ext[..])] {
+                let icmp = w::icmp4_error(typ, code, &probe, form, e);
+                let mut p = w::ipv4_header(hop, s, 1, 250, 0, 7, 0, (20 + icmp.len()) as u16).to_vec();
+                p.extend_from_slice(&icmp);
+                v.push(p);
+            }
+            let er = w::icmp4_echo_reply(1234, 33434, &[0u8; 56]);
+            let mut p = w::ipv4_header(t, s, 1, 60, 0, 9, 0, (20 + er.len()) as u16).to_vec();
+            p.extend_from_slice(&er);
+            v.push(p);
+        }
+        (IpAddr::V6(s), IpAddr::V6(t)) => {
+            let hop = Ipv6Addr::new(0xfd00, 0, 0, 0, 0, 0, 1, 1);
+            for (typ, code, form, e) in [(3u8, 0u8, ExtForm::None, &[][..]), (3, 0, ExtForm::Compliant, &ext[..]), (3, 0, ExtForm::Legacy, &ext[..]), (1, 4, ExtForm::Compliant, &ext[..])] {
+                v.push(w::icmp6_error(hop, s, typ, code, &probe, form, e));
+            }
+            v.push(w::icmp6_echo_reply(t, s, 1234, 33434, &[0u8; 36]));
+        }
+        _ => {}
+    }
+    v
+}
